@@ -516,7 +516,11 @@ def rand_solver_mech(rng, conservative=True, with_atol=False, max_spec=5):
             ys.append(left / w[prods[-1]])
         else:
             ys = [rng.choice([0.25, 0.5, 1.0, 1.5, 2.0]) for _ in prods]
-        rxns.append((rng.choice([0, 0, 0, 0, 1, 2]), reactants, list(zip(prods, ys))))
+        pl = list(zip(prods, ys))
+        if any(p for _, p in reactants) and rng.random() < 0.6:
+            # the third body comes out again (A + M -> B + M): a parameterised product, not part of the state
+            pl.insert(rng.randrange(len(pl)), (None, 1.0))
+        rxns.append((rng.choice([0, 0, 0, 0, 1, 2]), reactants, pl))
     return names, atol, w, rxns
 
 
@@ -531,7 +535,7 @@ def solver_mech_tokens(names, atol, rxns):
             t += [str(names[i]) if not p else str(i), str(p)]
         t.append(str(len(prods)))
         for pi, y in prods:
-            t += [str(names[pi]), "0", fnum(y)]
+            t += [str(names[pi]), "0", fnum(y)] if pi is not None else ["70", "1", fnum(y)]
     return t
 
 
